@@ -5,6 +5,7 @@ from ..r_stereo import rule_tetrahedron_table, rule_alkene_table, rule_ladders
 from ..r_hygiene import rule_hygiene as _rule_hygiene
 from ..r_rdkit import rule_index_inverse as _rule_index_inverse
 from ..r_rdkit import rule_import_revalidates as _rule_import_reval
+from ..r_round10 import rule_first_conformer_is_2d as _r10_conf
 
 LEVEL = 'other'
 
@@ -20,3 +21,4 @@ def run(ck, repo):
     _rule_hygiene(ck, repo, 'C20.H-dataflow-hygiene', 'C20')
     _rule_index_inverse(ck, repo, 'C20.D5-index-inverse')
     _rule_import_reval(ck, repo, 'C20.D4-import-revalidates')
+    _r10_conf(ck, repo, 'C20.D5-first-conformer-is-2d')
